@@ -19,6 +19,15 @@ SPECS = {
             "Root/operation glue (operations.Execute, json proxies) is exercised only by the history oracle, not modelled",
         ],
     },
+    "C02": {
+        "corr": ["RGA", "ERHT"],
+        "engines": [
+            {"name": "hist", "tag": "c02", "extra": "prop=C02", "n": {"quick": 500, "thorough": 8000}},
+            {"name": "erht", "n": {"quick": 300, "thorough": 3000}, "seed_off": 11},
+        ],
+        "explanation": "Histories on projects with snapshot interval/threshold in {1,2,3,5,10}, late attachers, detach/re-attach and in-flight edits: every attached client (many of them fed by snapshots) must show what a replica that applied every change one by one shows; the server-side rebuild at the current head (cache as-is, warm, and after the caller mutated the returned copy) and the cold rebuild of every historical serverSeq must equal that replica too. The ElementRHT engine checks the structural fact snapshots rely on (no live-but-unlinked member).",
+        "assumptions": ["PARTIAL: no theorem about snapshot encode/decode (to_bytes/from_bytes) yet; decided by the differential oracle"],
+    },
     "C03": {
         "corr": ["RGA", "ERHT", "Proto"],
         "engines": [
